@@ -87,6 +87,21 @@ fn main() {
                 worker_main(check.as_ref(), tier, seed, shard, nshards, &outdir, part, skip);
             });
         }
+        "c09seq" => {
+            // helper of C09's cross-process lane: print the L1 hash of one program's answer sequence
+            let dgen = args.get(2).cloned().unwrap_or_default();
+            let seed: u64 = args.get(3).and_then(|s| s.parse().ok()).unwrap_or(1);
+            let index: u64 = args.get(4).and_then(|s| s.parse().ok()).unwrap_or(0);
+            let h = pvmon::run::on_big_stack(move || {
+                pvmon::run::install_panic_hook();
+                let mut rng = pvmon::util::Rng::for_case(seed, "xproc", index);
+                let prog = pvmon::checks::c09::det_program(&dgen, &mut rng);
+                let cfg = pvmon::run::RunCfg { max_answers: 3000, step_budget: 2_000_000, extra_next: 0, display: false };
+                let r = pvmon::run::run_query(&prog, &cfg);
+                pvmon::util::fnv(&pvmon::checks::c09::l1_text(&r.answers))
+            });
+            println!("{:x}", h);
+        }
         "case" => {
             if args.len() < 7 {
                 usage();
